@@ -264,7 +264,22 @@ func analyseConnUnit(v *vocab, u *connUnit, entryLive bool, requires map[*types.
 		return true
 	})
 	if len(vars) == 0 {
-		return nil
+		// no conn variable, but conn-typed expressions may still be passed on (el.read(a.(*conn)))
+		has := false
+		ast.Inspect(u.body, func(n ast.Node) bool {
+			if e, ok := n.(ast.Expr); ok {
+				if t := info.TypeOf(e); t != nil && v.isConnPtr(t) {
+					has = true
+				}
+			}
+			return !has
+		})
+		if !has {
+			return nil
+		}
+		// a placeholder variable so that the machinery below has something to index
+		vars = append(vars, types.NewVar(token.NoPos, nil, "_conn", types.NewPointer(v.connT)))
+		idx[vars[0]] = 0
 	}
 	live := func(i uint) uint64 { return 1 << i }
 	closing := func(i uint) uint64 { return 1 << (i + 8) }
@@ -392,6 +407,17 @@ func analyseConnUnit(v *vocab, u *connUnit, entryLive bool, requires map[*types.
 					if req := requires[cf]; len(req) > 0 {
 						check := func(arg ast.Expr, k int) {
 							if req[k] == "" || arg == nil {
+								return
+							}
+							if _, isVar := connVarOf(arg); !isVar {
+								if t := info.TypeOf(arg); t != nil && v.isConnPtr(t) && record {
+									// a conn that is not held in a tracked variable (type assertion, field, call result): nothing is known about it
+									pseudo := vars[0]
+									ordinal["call "+core.FuncName(cf)+" with "+exprStr(arg)]++
+									sites = append(sites, connSite{unit: u.name, construct: "call " + core.FuncName(cf) + " with " + exprStr(arg), pos: e.Pos(), kind: "call",
+										varName: exprStr(arg), v: pseudo, ok: false, req: req[k],
+										msg: core.FuncName(cf) + " uses the descriptor of / runs a handler callback on its conn before any liveness check, and the conn passed here (" + exprStr(arg) + ") arrives from a task or event with unknown state (it may have been closed while the task was queued)"})
+								}
 								return
 							}
 							if vv, ok := connVarOf(arg); ok {
